@@ -3619,11 +3619,13 @@ impl AbiTraitDefinition {
                                    self.name, old_method.name, old_method.info.arguments.len(), old_version, new_method.info.arguments.len()
                 ));
             }
+            // A method's return value is always in return position (this is what makes
+            // boxed futures comparable at all), whatever the position of the trait object.
             if let Some(diff) = diff_schema(
                 &new_method.info.return_value,
                 &old_method.info.return_value,
                 "".into(),
-                is_return_position,
+                true,
             ) {
                 return Err(format!("In trait {}, method {}, the return value type has changed from version {}: {}. This is not a backward-compatible change.",
                                    self.name, old_method.name, old_version, diff
